@@ -120,7 +120,7 @@ def fit_case(case):
             v.append(violation("predict_does_not_reproduce_labels", {"labels": labs}, **where))
         sc = model.score(Xin, y)
         obj = kref.objective(labs, np.asarray(expect["A"], dtype=float))
-        if abs(sc - obj) > (1e-5 if form == "float32" else 1e-9) * max(1.0, abs(obj)):
+        if abs(sc - obj) > (1e-5 if form == "float32" else 1e-9) * max(abs(obj), np.abs(expect["A"]).sum() / n):
             v.append(violation("score_is_not_the_objective", {"score": sc, "objective": obj}, **where))
         return {"v": v, "nt": [case] if len(set(labs.tolist())) > 1 else [], "out": [(name, len(set(labs.tolist())))], "stats": {"evals": 1},
                 "sample": {"estimator": name, "spec": spec, "shape": shape, "form": form}}
